@@ -1,5 +1,6 @@
 import Driver.Codec
 import TakVerif.Impl.Alloc
+import TakVerif.Impl.Book
 namespace Driver
 open Tak
 
@@ -11,6 +12,8 @@ structure St where
   hs : Tak.HState := {}
   ps : Tak.PState := #[]
   slots : Array (Option Nat) := Array.replicate 16 none
+  -- C04 (opening book) session: the book built by the last `book`/`realbook` op
+  symBook : Option Tak.Book := none
 deriving Inhabited
 
 /-- a handler returns `none` when the op is not its own -/
